@@ -4,7 +4,7 @@
 From Coq Require Import List Arith Bool.
 Import ListNotations.
 Require Import TL.Model.Core TL.Model.Build TL.Proofs.CoreMono TL.Proofs.BuildLemmas TL.Proofs.BuildSemLemmas
-  TL.Proofs.C05History.
+  TL.Proofs.C05History TL.Proofs.BuildComplete.
 
 (* For every class environment E, both directions (dir = true: unmarshal), every annotation T and
    every node order pre ++ [root] that graph.static_order may return for T -- any order in which the
@@ -54,6 +54,70 @@ Theorem C05_marshal :
       exists m, forall m', m' >= m -> mar rt E m' T x = api_call rt E orders false fuel T x.
 Proof. intros rt E noop_leaf orders Ho Hn T fuel x Hd. exact (api_m_sound rt E noop_leaf orders Ho Hn T fuel x Hd). Qed.
 
+(* ---- the converse: the mechanism never falls short of the reference semantics ------------------------------------
+   C05_unmarshal / C05_marshal start from a terminal result of the MECHANISM.  Conversely, whatever terminal result
+   (value or exception) the reference semantics gives at some fuel, the mechanism gives for ALL sufficiently large
+   fuel: it does not stay OutOfFuel and is never Unmodelled -- every lazy proxy is resolved through the factory after
+   finitely many steps.  Beyond orders_contract this needs orders_strict (Proofs/BuildComplete.v): graph.static_order(t)
+   ends in t's own EXPANDED node (ntype root = t, not cyclic; t an evaluated annotation), and whatever an order defers
+   has an order (node_closed).  Both hold of the real function; computable per table: BuildTables.orders_strict_ok
+   (orders_strict_ok_sound).  They are necessary: C05_complete_refuted_without_strict_roots.
+   defd orders T: static_order answers for (what T evaluates to).  The fuel bound is existential; by api_call_mono_le
+   (fuel monotonicity of run / api_call: C05_mechanism_fuel_monotone) one fuel that works bounds all larger ones. *)
+Theorem C05_unmarshal_complete :
+  forall (rt : runtime) (E : env) (noop_leaf : nat -> bool) (orders : ty -> option (list node)),
+    orders_contract E true noop_leaf orders -> orders_strict orders ->
+    (forall s x, noop_leaf s = true -> leaf_u rt s x = Ok x) ->
+    forall (T : ty) (n : nat) (x : pv),
+      defd orders T = true -> done (unm rt E n T x) = true ->
+      exists N, forall fuel, fuel >= N -> api_call rt E orders true fuel T x = unm rt E n T x.
+Proof. intros rt E noop_leaf orders Ho Hs Hn T n x Hdef Hd. exact (api_u_complete rt E noop_leaf orders Ho Hs Hn T n x Hdef Hd). Qed.
+
+Theorem C05_marshal_complete :
+  forall (rt : runtime) (E : env) (noop_leaf : nat -> bool) (orders : ty -> option (list node)),
+    orders_contract E false noop_leaf orders -> orders_strict orders ->
+    (forall s x, noop_leaf s = true -> leaf_m rt s x = Ok x) ->
+    forall (T : ty) (n : nat) (x : pv),
+      defd orders T = true -> done (mar rt E n T x) = true ->
+      exists N, forall fuel, fuel >= N -> api_call rt E orders false fuel T x = mar rt E n T x.
+Proof. intros rt E noop_leaf orders Ho Hs Hn T n x Hdef Hd. exact (api_m_complete rt E noop_leaf orders Ho Hs Hn T n x Hdef Hd). Qed.
+
+(* both directions at once: mechanism and reference semantics have the same terminal results (ev f r: f m = r for all
+   sufficiently large m; r a value or an exception) *)
+Theorem C05_unmarshal_equiv :
+  forall (rt : runtime) (E : env) (noop_leaf : nat -> bool) (orders : ty -> option (list node)),
+    orders_contract E true noop_leaf orders -> orders_strict orders ->
+    (forall s x, noop_leaf s = true -> leaf_u rt s x = Ok x) ->
+    forall (T : ty) (x : pv) (r : res pv), defd orders T = true -> done r = true ->
+      (ev (fun m => unm rt E m T x) r <-> ev (fun fuel => api_call rt E orders true fuel T x) r).
+Proof. intros rt E noop_leaf orders Ho Hs Hn T x r Hdef Hd. exact (api_u_equiv rt E noop_leaf orders Ho Hs Hn T x r Hdef Hd). Qed.
+Theorem C05_marshal_equiv :
+  forall (rt : runtime) (E : env) (noop_leaf : nat -> bool) (orders : ty -> option (list node)),
+    orders_contract E false noop_leaf orders -> orders_strict orders ->
+    (forall s x, noop_leaf s = true -> leaf_m rt s x = Ok x) ->
+    forall (T : ty) (x : pv) (r : res pv), defd orders T = true -> done r = true ->
+      (ev (fun m => mar rt E m T x) r <-> ev (fun fuel => api_call rt E orders false fuel T x) r).
+Proof. intros rt E noop_leaf orders Ho Hs Hn T x r Hdef Hd. exact (api_m_equiv rt E noop_leaf orders Ho Hs Hn T x r Hdef Hd). Qed.
+
+(* fuel monotonicity of the mechanism (the analogue of CoreMono.unm_mono_le / mar_mono_le) *)
+Theorem C05_mechanism_fuel_monotone :
+  forall (rt : runtime) (E : env) (orders : ty -> option (list node)) (dir : bool) (n m : nat),
+    n <= m ->
+    (forall (r : routine) (x : pv), done (run rt E orders dir n r x) = true -> run rt E orders dir m r x = run rt E orders dir n r x) /\
+    (forall (T : ty) (x : pv), done (api_call rt E orders dir n T x) = true ->
+                               api_call rt E orders dir m T x = api_call rt E orders dir n T x).
+Proof. intros rt E orders dir n m Hle. split; [intros r x; exact (run_mono_le rt E orders dir n m r x Hle)|
+  intros T x; exact (api_call_mono_le rt E orders dir n m T x Hle)]. Qed.
+
+(* orders_strict is necessary: an order that satisfies order_ok and ends in a node with the right normal form, but
+   whose last node is a REFERENCE to the class instead of the class's own node, makes the factory answer a proxy that
+   resolves to itself -- the mechanism is OutOfFuel at every fuel although the reference semantics terminates *)
+Theorem C05_complete_refuted_without_strict_roots :
+  (forall dir, orders_contract loop_E dir (fun _ => false) loop_orders) /\
+  unm loop_rt loop_E 5 (TName 0) (PDict KDict []) = Ok (PObj 0 []) /\
+  mar loop_rt loop_E 5 (TName 0) (PObj 0 []) = Ok (PDict KDict []) /\
+  (forall dir fuel x, api_call loop_rt loop_E loop_orders dir fuel (TName 0) x = OutOfFuel).
+Proof. exact complete_refuted_without_strict_roots. Qed.
 
 (* Call histories (round 3).  api.unmarshaller / api.marshaller cache the routine they build for an annotation, so
    one routine converts a whole history of inputs xs, one call after the other (run_history = the built routine run
@@ -160,3 +224,9 @@ Print Assumptions C05_marshal.
 Print Assumptions C05_unmarshal_history.
 Print Assumptions C05_marshal_history.
 Print Assumptions C05_history_position_independent.
+Print Assumptions C05_unmarshal_complete.
+Print Assumptions C05_marshal_complete.
+Print Assumptions C05_unmarshal_equiv.
+Print Assumptions C05_marshal_equiv.
+Print Assumptions C05_mechanism_fuel_monotone.
+Print Assumptions C05_complete_refuted_without_strict_roots.
